@@ -263,6 +263,27 @@ def big_rows(ctx: Ctx):
             except Exception as e:  # noqa: BLE001
                 row["X"] = f"EXC:{type(e).__name__}:{e}"[:100]
                 rows.append(row)
+    # homomorphism of the isogenies on pairs of distinct SWU images
+    from py_ecc import optimized_bls12_381 as ob
+    for K, swu_fn, iso_fn, cls in ((K1, osw.optimized_swu_G1, osw.iso_map_G1, FQ), (K2, osw.optimized_swu_G2, osw.iso_map_G2, FQ2)):
+        d = K.d
+        for _ in range(3 if quick else 20):
+            try:
+                u1 = tuple(rng.randrange(p) for _ in range(d))
+                u2 = tuple(rng.randrange(p) for _ in range(d))
+                mk = (lambda c: cls(c[0])) if d == 1 else (lambda c: cls(list(c)))
+                Pp, Qq = swu_fn(mk(u1)), swu_fn(mk(u2))
+                lhs = iso_fn(*ob.add(Pp, Qq))
+                rhs = ob.add(iso_fn(*Pp), iso_fn(*Qq))
+
+                def affc(pt):
+                    cs_ = [tuple(int(t) for t in (v.coeffs if d == 2 else (v.n,))) for v in pt]
+                    zi = K.inv(cs_[2])
+                    return K.mul(cs_[0], zi), K.mul(cs_[1], zi)
+                (x1_, y1_), (x2_, y2_) = affc(lhs), affc(rhs)
+                rows.append({"op": "isohom", "g": d, "X": L(x1_), "Y": L(y1_), "X2": L(x2_), "Y2": L(y2_)})
+            except Exception as e:  # noqa: BLE001
+                rows.append({"op": "isohom", "g": d, "X": f"EXC:{type(e).__name__}:{e}"[:100]})
     params = {"A1": limbs(int(oc.ISO_11_A.n)), "B1": limbs(int(oc.ISO_11_B.n))}
     return rows, params
 
